@@ -758,6 +758,13 @@ def run(ctx):
     for fn_ in sorted(q for q in ctx.F.bodies if q.startswith(_ENC) and ctx.F.bodies[q]['kind'] in ('Fn', 'Closure')):
         _cc(ctx, P.B(fn_), 'C07.2-term-encoder-sizes', include_float=False, reviewed=REVIEWED_CAST)
     reviewed_premises(ctx, 'C07.2-term-encoder-sizes')
+    # ... and the payload is a well-formed term: what the encoder writes is what the format lays out (a fun's Size field included)
+    ctx.rule('C07.2-payload-well-formed', 'the payload (and the control tuple) are terms as the format lays them out: per tag the encoder writes the layout the decoder reads, every element of a container goes through the encoder, '
+             'and the Size of a fun is measured when the whole fun has been written (rules C01.2-writer-vs-reader, C01.2-elements-written, C01.2-fun-size-covers-all re-run): the frame is '
+             '"control tuple, given payload, nothing else" only if an independent reader finds the term boundaries where the writer put them', floor=20)
+    if type(ctx).__name__ != 'SubCtx':
+        from . import c01 as _c01_07
+        _c01_07.run(SubCtx(ctx, 'C07.2-payload-well-formed', 'c01', allow=('C01.2-writer-vs-reader', 'C01.2-elements-written', 'C01.2-fun-size-covers-all')))
 
     # the framing mode is picked by a flag test: the flag must sit on the protocol's bit
     from .c04 import flag_values
